@@ -32,6 +32,9 @@ CHECKS = {
  "C10": ("model_checking", "E1 smallscope", "bounded-exhaustive enumeration of schema texts x every decoration at every node, each parsed, re-serialised, strictly scanned, re-parsed and compared through an independent semantic normal form; the container header path included",
          "Every text of the decorated schema universe that the parser accepts is serialised back: the JSON must be strict (no duplicate keys), parse to an equal schema, denote the same full names / structure / logical types / defaults / docs / aliases / custom attributes as the original text (independent normal form), serialise identically a second time, and the header written by Writer must give Reader the same schema.",
          "5 C10", "the semantic normal form `sem` is the harness's independent reading of a schema text"),
+ "C11": ("model_checking", "E1 smallscope", "exhaustive enumeration of (a) the generated well-formed text universe, (b) every single JSON-node mutation of seed schemas with a fixed replacement alphabet, (c) all short strings over a JSON-steering alphabet; each parsed by the real parser under catch_unwind, accepted schemas exercised through every listed operation, acceptance compared with a three-valued reference judgement",
+         "No text of the enumerated universe makes the parser or any operation on an accepted schema panic; texts the reference judgement finds definitely well formed are accepted and definitely ill formed ones are rejected (grey-zone texts yield no verdict).",
+         "5 C11", "the reference judgement wf is written from the specification; hangs are bounded only by the run's overall timeout"),
 }
 def main():
     checks = []
